@@ -24,12 +24,12 @@ CLAIMED = {
         ref="DESIGN.md §3 C04"),
     "C05": dict(
         technique="Verus contracts on extracted default_macro_constant_type, IntKind::is_signed, IntKind::known_size, clang::EvalResult::as_int",
-        text="Deductive proof for all i64 macro values and both option reads that the integer kind chosen for a macro constant can hold the value with the sign the property demands, is the narrowest such kind under fit-macro-constant-types and 32/64 bits otherwise; IntKind sign/size tables agree with the C model; the value of a const initialiser / fallback macro is read from the full-width libclang getter matching its signedness.",
+        text="Deductive proof for all i64 macro values and both option reads that the integer kind chosen for a macro constant can hold the value with the sign the property demands, is the narrowest such kind under fit-macro-constant-types and 32/64 bits otherwise; IntKind sign/size tables agree with the C model; the value of a const initialiser / fallback macro and of an enumerator is read from the full-width libclang getter matching its signedness; a character-literal macro has the byte value of the literal or is omitted (F10 repaired); the integer literal printed for a variable denotes the value in the signedness of its type.",
         note="Trusted: Verus/Z3; extraction rules incl. R20 (unsafe FFI call -> safe stub with an uninterpreted spec); widening-conversion specs; C-model table. Unverified: cexpr/libclang evaluation itself, literal emission in Var::codegen, Enum::codegen repr translation.",
         ref="DESIGN.md §3 C05"),
     "C06": dict(
-        technique="Verus contracts on the layout-assertion block and the per-member assertion closure of CompInfo::codegen, extracted mechanically (rule R18)",
-        text="Deductive proof, for structs and unions generated by CompInfo::codegen, that with layout tests enabled exactly one assertion item is emitted which states the size and alignment libclang reported and one offset assertion (clang bit offset / 8) for every named non-bit-field member with a known offset, none for opaque types; and that with layout tests disabled, for forward declarations and for unknown layouts nothing is emitted. The same for template instantiations with concrete arguments (size and alignment). Narrow: other targets and the evaluation of the emitted expressions by rustc are not decided.",
+        technique="Verus contracts on the layout-assertion block and the per-member assertion closure of CompInfo::codegen, TemplateInstantiation::codegen, and the libclang size/alignment/offset getters, extracted mechanically",
+        text="Deductive proof, for structs and unions generated by CompInfo::codegen, that with layout tests enabled exactly one assertion item is emitted which states the size and alignment libclang reported and one offset assertion (clang bit offset / 8) for every named non-bit-field member with a known offset, none for opaque types; and that with layout tests disabled, for forward declarations and for unknown layouts nothing is emitted. The same for template instantiations with concrete arguments (size and alignment). The asserted numbers are libclang's 64-bit values without truncation (clang.rs getters). Narrow: other targets and the evaluation of the emitted expressions by rustc are not decided.",
         note="Trusted: Verus/Z3; extraction rules incl. R18 and span substitutions; each assertion token template is an env constructor recording what it asserts; libclang's numbers. Unverified: completeness of the field list, non-host targets, that every concrete struct reaches the block.",
         ref="DESIGN.md §7 (C06 moved from not-applicable to narrowly claimed after rule R18)"),
     "C07": dict(
@@ -49,12 +49,12 @@ CLAIMED = {
         ref="DESIGN.md §3 C09"),
     "C10": dict(
         technique="Verus contracts on extracted Item::is_blocklisted, Item/Type::is_opaque, CannotDerive::constrain_type (blocklisted rule first), helpers::blob / Layout::known_type_for_size / for_size_internal, the opaque branch of CompInfo::codegen's tail",
-        text="Deductive proof that (a) the blocklist test is exactly: hidden, in a blocklisted file, matched by the generic item list or by the list of the kind of the item, or a replaced type; (b) a type outside the allowlisted set derives a trait only as far as the callback of the user vouches, before any other rule; (c) the opaque blob emitted for any layout libclang can report has exactly that size and alignment; (d) an item is opaque exactly by annotation, by an --opaque-type match or through its type; (e) an opaque record is emitted as exactly one blob field of the C size/alignment with repr(align).",
+        text="Deductive proof that (a) the blocklist test is exactly: hidden, in a blocklisted file, matched by the generic item list or by the list of the kind of the item, or a replaced type; (b) a type outside the allowlisted set derives a trait only as far as the callback of the user vouches, before any other rule; (c) the opaque blob emitted for any layout libclang can report has exactly that size and alignment; (d) an item is opaque exactly by annotation, by an --opaque-type match or through its type; (e) an opaque record is emitted as exactly one blob field of the C size/alignment with repr(align); (f) a trait is derivable through a blocklisted type only when bindgen (stdint names, no callbacks) or the user's callback vouched.",
         note="Trusted: as C02/C08; regex matching and path computation uninterpreted. Unverified: that every codegen entry point consults is_blocklisted, CompInfo::is_opaque / TemplateInstantiation::is_opaque bodies, tracing cut-off at opaque types, the body of blocklisted_type_implements_trait.",
         ref="DESIGN.md §3 C10"),
     "C12": dict(
         technique="Verus/Kani safety obligations (overflow, underflow, unwrap, run-time assert!/unreachable!, callee preconditions, termination) of every function under contract; concrete Kani witnesses for from_str",
-        text="Deductive proof of panic-freedom and termination for the ~60 functions under contract in all Verus units (layout tracker, Layout, blob, bit-field allocation, constrain_type incl. its assert!/unreachable! sites as obligations under stated IR invariants, ...); regression guards for the repaired defects F2 and F3 (concrete witness harnesses = bounded).",
+        text="Deductive proof of panic-freedom and termination for the ~60 functions under contract in all Verus units (layout tracker, Layout, blob, bit-field allocation, constrain_type incl. its assert!/unreachable! sites as obligations under stated IR invariants, ...); regression guards for the repaired defects F2 and F3 (concrete witness harnesses = bounded); F10 (char-literal macro) and F11 (unknown calling convention) found by failed obligations on the unchanged tree and repaired.",
         note="Trusted: as C02. Narrow: the hundreds of unwrap/expect sites that depend on libclang AST shapes, recursion depth and Builder::generate error paths are not under contract.",
         ref="DESIGN.md §3 C12"),
     "C14": dict(
